@@ -114,7 +114,7 @@ def gen_conv04(rng):
         return c
     if r < 0.85:
         if rng.random() < 0.08:
-            # F04a family: AnyConverter.to_url does not percent-encode its items
+            # former F04a family (repaired in /repo 3fc8bd3): items that need percent-encoding
             return ["a", *rng.choice([["a?b", "ok"], ["x#y"], ["%41", "a"], ["50%25"]])]
         return ["a", *rng.choice([["a", "b"], ["about", "help", "x.y"], ["foo,bar", "a-b"], ["é", "x y"], ["items"]])]
     return ["u"]
@@ -245,6 +245,10 @@ class BuildMatchStream(Stream):
         {"cfg": mk_cfg(), "rules": [mk_rule(toks_of("/p/<string:s>/<path:rest>"), "p")], "mounts": {}, "adapter": mk_adapter(), "endpoint": "p", "values": {"s": ["s", "a b;?#%é"], "rest": ["s", "x/y z/%2F"]}, "extra": {}, "method": None, "fe": False},
         {"cfg": mk_cfg(), "rules": [mk_rule(toks_of("/n/<int(fixed_digits=3, signed=True):i>/<float(signed=True):f>"), "n")], "mounts": {}, "adapter": mk_adapter(), "endpoint": "n", "values": {"i": ["i", -5], "f": ["f", "-12.25"]}, "extra": {}, "method": None, "fe": False},
         {"cfg": mk_cfg(), "rules": [mk_rule(toks_of("/blog/entry/<slug>"), "blog/show", dom=[["L", "api"]])], "mounts": {"0": {"prefix": "/blog", "subdomain": True}}, "adapter": mk_adapter(sub=""), "endpoint": "blog/show", "values": {"slug": ["s", "hello world"]}, "extra": {}, "method": None, "fe": False},
+        # F04a regressions (repaired: AnyConverter.to_url quotes the item)
+        {"cfg": mk_cfg(), "rules": [mk_rule(["/", ["L", "x"], "/", ["V", ["a", "a?b", "ok"], "v"]], "e")], "mounts": {}, "adapter": mk_adapter(), "endpoint": "e", "values": {"v": ["s", "a?b"]}, "extra": {}, "method": None, "fe": False},
+        {"cfg": mk_cfg(), "rules": [mk_rule(["/", ["L", "x"], "/", ["V", ["a", "x#y", "%41", "a b", "é"], "v"], "/"], "e")], "mounts": {}, "adapter": mk_adapter(script="/app"), "endpoint": "e", "values": {"v": ["s", "%41"]}, "extra": {"q": ["s", "1"]}, "method": None, "fe": True},
+        {"cfg": mk_cfg(), "rules": [mk_rule(["/", ["L", "x"], "/", ["V", ["a", "x#y", "%41", "a b", "é"], "v"], "/"], "e")], "mounts": {}, "adapter": mk_adapter(), "endpoint": "e", "values": {"v": ["s", "x#y"]}, "extra": {}, "method": None, "fe": False},
         {"cfg": mk_cfg(hm=True), "rules": [mk_rule(toks_of("/h/<uuid:u>"), "h", dom=[["L", "api.example.org"]]), mk_rule(toks_of("/g/<any(a,b):x>"), "g", dom=[["L", "example.org"]])], "mounts": {}, "adapter": mk_adapter(sub=None), "endpoint": "h", "values": {"u": ["u", "12345678-1234-5678-1234-567812345678"]}, "extra": {}, "method": None, "fe": False},
     ]
 
@@ -409,17 +413,6 @@ class BuildMatchStream(Stream):
             return f"build(match(url)) = {bytes.fromhex(u2[2:]).decode()!r} differs from url = {url!r}"
         return None
 
-    def finding_key(self, case, what):
-        # F04a: the value of an `any` converter contains '?', '#' or a percent escape, which
-        # AnyConverter.to_url emits unquoted
-        target = [r for r in case["rules"] if r["endpoint"] == case["endpoint"]]
-        for r in target:
-            for name, c in rule_vars(r):
-                v = case["values"].get(name) or r["defaults"].get(name)
-                if c[0] == "a" and v is not None and re.search(r"[?#]|%[0-9A-Fa-f]{2}", str(v[1])):
-                    return "F04a"
-        return None
-
     def nontrivial(self, case, real_out):
         return " ; M " in real_out
 
@@ -446,6 +439,9 @@ class ConvStream(Stream):
         {"conv": ["i", 0, False, None, None], "value": ["i", 0]},
         {"conv": ["f", True, None, None], "value": ["f", "-0.5"]},
         {"conv": ["a", "a", "x y", "é"], "value": ["s", "x y"]},
+        {"conv": ["a", "%41", "a?b", "x#y", "50%25"], "value": ["s", "%41"]},
+        {"conv": ["a", "%41", "a?b", "x#y", "50%25"], "value": ["s", "a?b"]},
+        {"conv": ["a", "%41", "a?b", "x#y", "50%25"], "value": ["s", "50%25"]},
         {"conv": ["u"], "value": ["u", "12345678-1234-5678-1234-567812345678"]},
         {"conv": ["p"], "value": ["s", "a/b c/%41"]},
     ]
@@ -492,11 +488,6 @@ class ConvStream(Stream):
             return f"to_python(unquote(to_url(v))) = {v} differs from v = {want}"
         return None
 
-    def finding_key(self, case, what):
-        if case["conv"][0] == "a" and re.search(r"%[0-9A-Fa-f]{2}", str(case["value"][1])):
-            return "F04a"
-        return None
-
     def bucket(self, case, real_out):
         return case["conv"][0]
 
@@ -513,7 +504,7 @@ CHECK = Check(
         "floats are positional decimal text in Python's canonical spelling (repr): str(float) and float(text) are Python's and only correspondence-tested; int() / str(int) are modelled by Lean's decimal printer and the generated digit table (proved inverse)",
         "converse law is checked as build(match(build(endpoint, values))) = build(endpoint, values): a URL that is not in built form ('/007' for <int>) matches but rebuilds canonically ('/7'), by design",
         "negative min / max cannot be written in a rule string (werkzeug's converter-argument grammar has no sign), so signed converters are exercised with non-negative bounds",
-        "known finding F04a: AnyConverter.to_url does not percent-encode (negation witness toPython_toUrl_any_full_false)",
+        "F04a (AnyConverter.to_url returned the item unquoted) is repaired in /repo (3fc8bd3): the model quotes any-items with the BaseConverter safe set, toPython_toUrl_any is full strength, the former failing inputs are corpus regressions of both streams",
         "match_build is proved at rule level for every rule of the grammar without subdomain rule (rule_build_match_partial: isolating converters and one path converter; the rule's own parts admit what the rule builds, groups = decoded converter outputs); the map-level law (rule selection by suitable_for / build_compare_key on non-overlapping maps) and build_match_fixpoint are OPEN (see Props/C04.lean) and validated by stream build-match only",
     ],
     trusted_extra=["CPython urllib.parse / int / float / uuid for the modelled primitives (validated by the streams, not verified)"],
@@ -523,7 +514,7 @@ CHECK = Check(
 
 MANIFEST = {
     "level_text": "Machine-checked Lean 4 theorems about the model of URL building: percent-decoding undoes the builder's quoting for every text (unquote_quote: decide over all 256 bytes lifted to all strings by induction, UTF-8 round trip from Lean core), and to_python(unquote(to_url(v))) = v for every converter on its canonical domain - strings and paths (all text), ints incl. signed and zero-padded fixed_digits with min/max (decimal printing and reading proved inverse over the generated Unicode digit table), uuid, any, floats as canonical decimal text; and at rule level the rule's own compiled parts directly admit the percent-decoded path the rule builds, extracting exactly the decoded converter outputs (rule_build_match_partial: isolating converters and one path converter). The map-level build/match laws are validated by a differential stream over non-overlapping maps (model vs real code, character for character) with the property oracle on the real code.",
-    "level_note": "Trusted: Lean kernel; extract.py; harness; CPython urllib.parse/int/float/uuid (modelled, stream-validated). Partial: match_build is proved per converter and per rule; rule selection at map level and build_match_fixpoint are OPEN (stream-validated only); float <-> text is Python's. Known finding F04a (any converter is not percent-encoded).",
+    "level_note": "Trusted: Lean kernel; extract.py; harness; CPython urllib.parse/int/float/uuid (modelled, stream-validated). Partial: match_build is proved per converter and per rule; rule selection at map level and build_match_fixpoint are OPEN (stream-validated only); float <-> text is Python's.",
     "technique": "Lean 4 proof (decide +kernel over all bytes, induction over byte/digit lists, core UTF-8 and Nat.toDigits lemmas) + model/code correspondence",
     "design_ref": "DESIGN.md section 4, C04",
 }
